@@ -94,7 +94,14 @@ func c18(w *core.World, r *core.Report) {
 				}
 				n++
 				okB := false
-				for _, bs := range core.SitesNamed(g, false, unitBuilder) {
+				builds := core.SitesNamed(g, false, unitBuilder)
+				// ... or a helper that hands the builder's answer on as it is
+				for _, bs := range core.Sites(g, false) {
+					if bs.Callee != nil && passesOn(bs.Callee, unitBuilder, 0) {
+						builds = append(builds, bs)
+					}
+				}
+				for _, bs := range builds {
 					if core.Dominates(bs.Instr, s.Instr) && core.OnSuccessOf(s.Instr.Block(), bs.Value()) && core.Unwrap(s.Args()[0]) == extractOf(bs.Value(), 0) {
 						okB = true
 					}
@@ -200,7 +207,7 @@ func ruleBuilderVisitsAll(w *core.World, r *core.Report, b *ssa.Function) {
 	bad := ""
 	var badPos token.Pos
 	seen := map[string]bool{}
-	okEnum := core.EnumPathsN(b.Blocks[0], 0, 400000, core.Unroll, func(p *core.Path) {
+	okEnum := core.EnumPathsN(b.Blocks[0], 0, 400000, 3, func(p *core.Path) {
 		ret, ok := p.End.(*ssa.Return)
 		if !ok || bad != "" {
 			return
@@ -588,15 +595,32 @@ func isSeenFlag(ph *ssa.Phi) bool {
 				walk(q)
 				continue
 			}
-			b, isC := core.ConstBool(e)
-			if !isC {
-				ok = false
-				continue
+			// a constant, or what a helper that only returns constants there hands back (a preset decided
+			// before the loop)
+			vals := []ssa.Value{e}
+			if x, isE := e.(*ssa.Extract); isE {
+				if c, isCall := x.Tuple.(*ssa.Call); isCall {
+					if g := c.Call.StaticCallee(); g != nil && len(g.Blocks) > 0 {
+						vals = nil
+						for _, in := range core.OwnInstrs(g) {
+							if ret, isRet := in.(*ssa.Return); isRet && x.Index < len(ret.Results) {
+								vals = append(vals, ret.Results[x.Index])
+							}
+						}
+					}
+				}
 			}
-			if b {
-				hasT = true
-			} else {
-				hasF = true
+			for _, v := range vals {
+				b, isC := core.ConstBool(v)
+				if !isC {
+					ok = false
+					continue
+				}
+				if b {
+					hasT = true
+				} else {
+					hasF = true
+				}
 			}
 		}
 	}
@@ -881,4 +905,43 @@ func ruleResolvedKeysWin(w *core.World, r *core.Report) {
 		return
 	}
 	r.Check(bad == "" && n > 0, "resolveBisyncCommandKeys/resolved-keys-win", pos, "%s", bad)
+}
+
+// passesOn: every return of g is `return target(…)` — the results of one call of target (or of another such
+// helper), in order and unchanged.
+func passesOn(g *ssa.Function, target string, depth int) bool {
+	if g == nil || len(g.Blocks) == 0 || depth > 3 {
+		return false
+	}
+	n := 0
+	for _, in := range core.OwnInstrs(g) {
+		ret, ok := in.(*ssa.Return)
+		if !ok {
+			continue
+		}
+		n++
+		var call *ssa.Call
+		for i, rv := range ret.Results {
+			e, isE := rv.(*ssa.Extract)
+			if !isE || e.Index != i {
+				return false
+			}
+			c, isC := e.Tuple.(*ssa.Call)
+			if !isC || (call != nil && c != call) {
+				return false
+			}
+			call = c
+		}
+		if call == nil || call.Block() != ret.Block() {
+			return false
+		}
+		callee := call.Call.StaticCallee()
+		if callee == nil || callee.Signature.Results().Len() != len(ret.Results) {
+			return false
+		}
+		if core.FuncName(callee) != target && !passesOn(callee, target, depth+1) {
+			return false
+		}
+	}
+	return n > 0
 }
